@@ -85,6 +85,9 @@ pub enum Op {
     ForSum { h: usize },
     /// script `for x in l { if c < n { l.push(x) } c = c + 1 }`
     ForPush { h: usize, n: u64 },
+    /// nested element type only: push `v` to inner list `inner` through its own handle
+    /// (every alias stored in an outer list must observe it)
+    InnerPush { inner: usize, v: u64 },
 }
 
 #[derive(Clone, Debug, PartialEq, Eq, Serialize, Deserialize)]
@@ -261,6 +264,14 @@ impl SeqModel {
                 })),
                 None => Obs::Skipped,
             },
+            Op::InnerPush { inner, v } => {
+                if *inner < self.heap.lists.len() {
+                    self.heap.lists[*inner].push(MVal::Int(*v));
+                    Obs::Unit
+                } else {
+                    Obs::Skipped
+                }
+            }
             Op::ForPush { h, n } => match self.lid(*h) {
                 Some(id) => {
                     let mut c = 0u64;
